@@ -75,12 +75,13 @@ for dst in sorted(glob.glob(f"{OUT}/*")):
     name = f"r{rnd}{pid}{var}"
     old = json.load(open(f"{dst}/meta.json")) if os.path.exists(f"{dst}/meta.json") else {}
     meta_txt = open(f"{dst}/meta.txt", errors="replace").read().strip() if os.path.exists(f"{dst}/meta.txt") else old.get("what_it_changes_and_what_it_needs_to_manifest", "")
-    fin = final.get(name)
-    if fin is None and "final_audit" in old:
+    # the audits recorded in an existing meta.json, overlaid with what the logs of this session say
+    fin = {}
+    if "final_audit" in old:
         fin = {c: (1 if c in old["final_audit"]["report_a_violation"] else 0) for c in old["final_audit"]["report_a_violation"] + old["final_audit"]["stay_silent"]}
         for c in old["final_audit"].get("inconclusive", []):
             fin[c] = 2
-    fin = fin or {}
+    fin.update(final.get(name) or {})
     ear = early.get(name, {})
     if not ear and rnd < 4 and "earlier_audits_caught_by" in old:
         ear = {c: True for c in old["earlier_audits_caught_by"]}
